@@ -30,7 +30,7 @@ inductive Err where
   | fuel (site : String)
   /-- feature outside the model -/
   | unsupported (what : String)
-deriving Repr, BEq
+deriving Repr, BEq, DecidableEq
 
 abbrev R := Except Err
 
